@@ -80,3 +80,9 @@ package types
 //@ func NewXText
 //@   assigns nothing
 //@   ensures [built] result != nil && fresh(result) && result.native == value
+
+// C12: the written form of a text value is the quoted, escaped literal of exactly that string
+//@ func (x *XText) Describe
+//@   requires x != nil
+//@   assigns nothing
+//@   ensures [quoted] result == strconv.Quote(x.native)
